@@ -4,6 +4,8 @@ mod util;
 mod backoff;
 mod childrun;
 mod codec;
+mod e2e;
+mod e2epub;
 mod fanout;
 mod mock;
 mod pubsub;
@@ -52,6 +54,7 @@ fn main() {
         "fanout" => fanout::run(&cfg),
         "pubsub" => pubsub::run(&cfg),
         "reqrep" => reqrep::run(&cfg),
+        "e2epub" => e2epub::run(&cfg),
         other => { eprintln!("unknown suite {other}"); std::process::exit(2); }
     }
 }
